@@ -107,3 +107,84 @@ func VerifC09UpdateTokens() {
 	vC09Update(vJoin(words), "C09-utokens")
 	nd.Reach("end")
 }
+
+// VerifC09Separators: between the tokens of a sentence only blanks, tabs, line feeds and carriage returns are
+// white space; the separator is one symbolic byte (any value that cannot be part of a token).
+func VerifC09Separators() {
+	sep := nd.StringN("sep", 1)
+	c := sep[0]
+	// bytes that are (part of) tokens on their own are not separators
+	nd.Assume(!(c >= 'a' && c <= 'z' || c >= 'A' && c <= 'Z' || c >= '0' && c <= '9' || c == '_' || c == ':' || c == '#'))
+	for _, t := range []byte("=<>()[].,+-") {
+		nd.Assume(c != t)
+	}
+	if nd.Choice("grammar", 2) == 0 {
+		texts := [][]string{{"a", "=", ":x"}, {"a", "=", ":x", "AND", "n", "=", ":n"}, {"NOT", "a", "=", ":x"}, {"attribute_exists", "(", "a", ")"}}
+		words := texts[nd.Choice("text", len(texts))]
+		pos := nd.Choice("where", 3) // leading, between tokens, trailing
+		text := ""
+		for i, w := range words {
+			if i > 0 {
+				if pos == 1 {
+					text += sep
+				} else {
+					text += " "
+				}
+			}
+			text += w
+		}
+		if pos == 0 {
+			text = sep + text
+		}
+		if pos == 2 {
+			text += sep
+		}
+		vC09Condition(text, "C09-separator")
+	} else {
+		words := [][]string{{"SET", "a", "=", ":x"}, {"REMOVE", "a"}}[nd.Choice("text", 2)]
+		text := ""
+		for i, w := range words {
+			if i > 0 {
+				text += sep
+			}
+			text += w
+		}
+		vC09Update(text, "C09-useparator")
+	}
+	nd.Reach("end")
+}
+
+// vCompose enumerates expression texts built without type discipline from the productions of the grammar:
+// operands in condition positions and conditions in operand positions included.
+func vCompose(depth int, name string) string {
+	atoms := []string{"a", ":x", "n"}
+	if depth == 0 {
+		return atoms[nd.Choice(name+".atom", len(atoms))]
+	}
+	switch nd.Choice(name+".form", 9) {
+	case 0:
+		return vCompose(0, name+".0")
+	case 1:
+		return vCompose(depth-1, name+".l") + " = " + vCompose(depth-1, name+".r")
+	case 2:
+		return vCompose(depth-1, name+".l") + " < " + vCompose(depth-1, name+".r")
+	case 3:
+		return vCompose(depth-1, name+".l") + " AND " + vCompose(depth-1, name+".r")
+	case 4:
+		return "NOT " + vCompose(depth-1, name+".x")
+	case 5:
+		return "( " + vCompose(depth-1, name+".x") + " )"
+	case 6:
+		return vCompose(depth-1, name+".v") + " BETWEEN " + vCompose(0, name+".lo") + " AND " + vCompose(depth-1, name+".hi")
+	case 7:
+		return vCompose(depth-1, name+".v") + " IN ( " + vCompose(depth-1, name+".e") + " )"
+	default:
+		return "attribute_exists ( " + vCompose(depth-1, name+".x") + " )"
+	}
+}
+
+// VerifC09Compose: every text composed from the grammar's productions up to the given depth, well-typed or not.
+func VerifC09Compose() {
+	vC09Condition(vCompose(nd.Param("depth", 2), "e"), "C09-compose")
+	nd.Reach("end")
+}
